@@ -9,6 +9,11 @@
  * clauses are therefore defined away; contracts/registers-typed.h restores the
  * three keywords before the first function contract (and before the loop
  * contract of the memcpy model).  Engine limitation worked around, see report.
+ *
+ * Target register_sanitise (C05) does NOT include this header: it needs the
+ * loop contract of contracts/registers-sanitise.loops; the clauses of the
+ * block/iteration unit are then visible too (their ghosts are declared by the
+ * .loops prelude; the annotated functions are not reachable from sanitise).
  */
 #ifndef STUBS_REGISTER_CALLBACKS_PRE_H
 #define STUBS_REGISTER_CALLBACKS_PRE_H
